@@ -105,16 +105,25 @@ def grammar_rules(ck, F):
                    "%s consumes tokens beyond `first (op rhs)*`: %s" % (fn, sk), b.span, nontrivial=False)
     un = get_fn(ck, F, EV + "evaluate_unary_operator")
     if un is not None:
-        sk = grammar.skeleton(un)
-        want = [("try_next_token", "UnaryOp::from_token", False), ("call", "evaluate_parenthesized_expression", False)]
+        # the operand grammar `( expr ) | term` may be its own function or written out in place: compare with it expanded
+        sk = grammar.skeleton(un, F=F, inline=lambda p: p.endswith("::evaluate_parenthesized_expression"))
+        want = [("try_next_token", "UnaryOp::from_token", False), ("accept_next_token", "LeftParen", False),
+                ("call", "evaluate_expression", False), ("expect_next_token", "RightParen", False),
+                ("call", "evaluate_expression_term", False)]
         ck.require(sk == want, "C02:GRAMMAR:unary", "grammar", "at most one prefix operator, then a parenthesised expression or term",
                    "evaluate_unary_operator skeleton is %s" % sk, un.span)
+        from lib import call_names_deep
         cs = un.calls_to("UnaryOp::evaluate")
-        ok = len(cs) == 1 and "evaluate_parenthesized_expression" in show(un.expr(cs[0].args[1])) and \
-            "try_next_token" in show(un.expr(cs[0].args[0]))
+        ok = False
+        if len(cs) == 1:
+            operand = call_names_deep(un, un.expr(cs[0].args[1]))
+            ok = bool(operand & {"evaluate_parenthesized_expression", "evaluate_expression", "evaluate_expression_term"}) and \
+                "try_next_token" in call_names_deep(un, un.expr(cs[0].args[0]))
         ck.require(ok, "C02:GRAMMAR:unary-apply", "grammar", "the accepted prefix operator is applied to the operand's value",
                    "evaluate_unary_operator no longer applies the accepted operator to the parsed operand", un.span)
-    pa = get_fn(ck, F, EV + "evaluate_parenthesized_expression")
+    pa = F.one(EV + "evaluate_parenthesized_expression")
+    if pa is None:
+        ck.ok("C02:GRAMMAR:parens", "grammar", "`( expr ) | term` is written out inside evaluate_unary_operator (checked with its skeleton)")
     if pa is not None:
         sk = grammar.skeleton(pa)
         want = [("accept_next_token", "LeftParen", False), ("call", "evaluate_expression", False),
@@ -229,9 +238,8 @@ def equality(ck, F):
         consts = set()
         for c in b.calls():
             if "From<f64>>::from" in c.callee or c.callee.endswith("Value::from_bool"):
-                e = strip_expr(b.expr(c.args[0]))
-                if e[0] == "const":
-                    consts.add(e[1].get("float"))
+                from lib import float_consts_deep
+                consts |= float_consts_deep(b, b.expr(c.args[0]))
                 if c.callee.endswith("Value::from_bool"):
                     consts |= {"1.0", "0.0"}
         ck.require(consts == {"1.0", "0.0"}, "C02:BOOL:comparison-encoding", "boolean encoding", "comparison yields 1.0 or 0.0",
